@@ -12,10 +12,21 @@ META = {
     "proof_modules": ["PyodaProofs.C08"],
     "drivers": ["drv_text"],
     "theorems": [
-        "Pyoda.C08.parseDigits_total", "Pyoda.C08.parseFraction_total", "Pyoda.C08.parseInt64_total",
-        "Pyoda.C08.iso_parse_total", "Pyoda.C08.iso_date_success_valid", "Pyoda.C08.iso_time_success_valid",
-        "Pyoda.C08.iso_datetime_success_valid", "Pyoda.C08.iso_offset_success_valid",
-        "Pyoda.C08.iso_parse_consumes_all",
+        "Pyoda.C08.parseDigits_total",
+        "Pyoda.C08.parseFraction_total",
+        "Pyoda.C08.parseInt64_total",
+        "Pyoda.C08.parseField_range",
+        "Pyoda.C08.iso_parse_total",
+        "Pyoda.C08.iso_date_success_valid",
+        "Pyoda.C08.iso_time_success_valid",
+        "Pyoda.C08.iso_datetime_success_valid",
+        "Pyoda.C08.iso_offset_success_valid",
+        "Pyoda.C08.guard_needed_offset",
+        "Pyoda.C08.guard_needed_rollover",
+        "Pyoda.C08.offset_19_is_failure",
+        "Pyoda.C08.rollover_at_max_is_failure",
+        "Pyoda.C08.year_below_minimum_is_failure",
+        "Pyoda.C08.trailing_nul_is_failure",
     ],
     "trusted_base": [
         "str indexing inside _ValueCursor is guarded by the cursor's own length checks (modelled as list operations)",
